@@ -39,6 +39,8 @@ func implC03(line string) string {
 		return implAsi(f)
 	case "noin":
 		return implNoIn(f)
+	case "asire":
+		return implAsiRe(f)
 	case "num":
 		return implNum(f)
 	case "str":
@@ -178,5 +180,6 @@ func genC03(c *h.Ctx) {
 	}
 	genLit(c)
 	genAsi(c)
+	genAsiRe(c)
 	genNoIn(c)
 }
